@@ -129,7 +129,7 @@ CLAIMED = {
              'code by random histories executed in fresh interpreter processes (one per session) with pickled graphs carried across; '
              'ids, names, generations, allocator counters and parent links are compared with the model; identity oracles (duplicate '
              'ids, improper parents, probe LP optimum, duplicate names in builder Problems) run on the implementation.',
-        note='per-session generation offsets are random 40-bit numbers: cross-session disjointness holds unless two sessions draw the '
+        note='F25 repaired in /repo (d17d5c1: duplicate multiplier names when a constraint object is listed twice). per-session generation offsets are random 40-bit numbers: cross-session disjointness holds unless two sessions draw the '
              'same offset (probability 2^-40 per pair); CPython pickle trusted.',
         technique='Lean 4 proof (invariants over operation histories) + model/implementation correspondence check across interpreter sessions',
         design_ref='DESIGN.md 4/C20'),
